@@ -190,7 +190,10 @@ def _levels(tier):
     lv.append(('depth0 x all sources', [(s, []) for s in srcs]))
     lv.append(('depth1: all carriers x all sources', list(pf.enumerate_programs(1, None, allc))))
     if tier == 'quick':
-        lv.append(('depth2: all ordered pairs x {inst}', list(pf.enumerate_programs(2, ['inst'], deep))))
+        corecs = set(core)
+        lv.append(('depth2: ordered pairs with a core carrier on either side x {inst}',
+                   [(s_, c) for s_, c in pf.enumerate_programs(2, ['inst'], deep)
+                    if c[0] in corecs or c[1] in corecs]))
         lv.append(('depth2: core pairs x {cls,func,int,list}',
                    list(pf.enumerate_programs(2, ['cls', 'func', 'int', 'list'], core))))
     else:
